@@ -20,4 +20,17 @@ Representable(m) == Encodings(m) # {}
 \* the all-by-reference placement always fits when anything does (the encoder can always fall back to it)
 FallbackLemma(m) == Representable(m) =>
     \E e \in Encodings(m) : e.sides = <<(IF m.init = <<>> THEN 0 ELSE 1), 1>>
+\* ---- values that CONTAIN messages (highload wallet data: old_queries:(HashmapE 64 WalletMessage), message:^MessageAny): the
+\* serialiser is free to place each nested message's state-init and body inline or by reference, so the set of valid encodings
+\* of such a value is the set of encodings of its placement variants
+Logical(mv) == [info |-> mv.info, init |-> IF mv.init = <<>> THEN <<>> ELSE <<mv.init[1].v>>, body |-> mv.body.v]
+MsgVariants(mv) == {MsgValue(Logical(mv), p[1], p[2]) : p \in Placements(Logical(mv))}
+HwVariants(v) ==
+    LET n == Len(v.old_queries)
+        all == UNION {MsgVariants(v.old_queries[i].v.message) : i \in 1..n}
+        pick == {f \in [1..n -> all] : \A i \in 1..n : f[i] \in MsgVariants(v.old_queries[i].v.message)}
+    IN {[v EXCEPT !.old_queries = [i \in 1..n |-> [k |-> v.old_queries[i].k, v |-> [v.old_queries[i].v EXCEPT !.message = f[i]]]]] : f \in pick}
+WrapEncodings(ty, v) ==
+    IF ty = "HighloadWalletData" THEN {e \in {T!Encode(ty, w) : w \in HwVariants(v)} : TreeFits(e)}
+    ELSE {T!Encode(ty, v)}
 =============================================================================
